@@ -61,7 +61,8 @@ def leg_T(ctx, sessions, only=None):
     if only is not None:
         args.append(only)
     ctx.vh(args)
-    n, bad = ctx.validate_trace("Trace_Mash", tpath, timeout=3000)
+    n, bad = ctx.validate_trace("Trace_Mash", tpath, timeout=6000, maxset=100000000 if ctx.tier == "thorough" else None,
+                                heap="12g" if ctx.tier == "thorough" else None)
     events = vlib.read_ndjson(tpath)
     sids = {e["sid"] for e in events}
     badsids = set()
